@@ -81,14 +81,14 @@ func genE2ECut(rt *rapid.T, maxEvents int) *E2ECut {
 
 func genE2EPlan(rt *rapid.T, maxEvents int) E2EPlan {
 	var p E2EPlan
-	for i, n := 0, rapid.IntRange(0, 3).Draw(rt, "ncuts"); i < n; i++ {
+	for i, n := 0, rapid.IntRange(0, 4).Draw(rt, "ncuts"); i < n; i++ {
 		if rapid.IntRange(0, 9).Draw(rt, "uncut") < 2 {
 			p.Cuts = append(p.Cuts, nil)
 			continue
 		}
 		p.Cuts = append(p.Cuts, genE2ECut(rt, maxEvents))
 	}
-	for i, n := 0, rapid.IntRange(0, 3).Draw(rt, "nattempts"); i < n; i++ {
+	for i, n := 0, rapid.IntRange(0, 5).Draw(rt, "nattempts"); i < n; i++ {
 		p.Attempts = append(p.Attempts, rapid.SampledFrom([]string{"ok", "ok", "neterr", "503"}).Draw(rt, "attempt"))
 	}
 	return p
@@ -110,17 +110,43 @@ func genE2E(rt *rapid.T) E2EScript {
 			Log:  rapid.IntRange(0, 2).Draw(rt, "log") == 0,
 			Conc: i > 0 && rapid.IntRange(0, 3).Draw(rt, "conc") == 0,
 		}
+		// The staircase, generated on purpose: the stream is cut again and again, each body bringing
+		// exactly one new event (progress), and between two bodies as many reconnect attempts fail as the
+		// budget unambiguously allows (MaxRetries-1), so that the failures of all windows together exceed
+		// MaxRetries although no single window does.
+		budget := e2eBudget(s)
+		stair := s.Store && !s.JSON && budget >= 2 && rapid.IntRange(0, 5).Draw(rt, "staircase") == 0
+		windows := 0
+		if stair {
+			windows = budget/(budget-1) + 1
+			c.N = max(c.N, windows+1)
+		}
 		for j := 0; j <= c.N; j++ {
 			c.Pauses = append(c.Pauses, rapid.SampledFrom([]int{0, 0, 0, 300, 1500, 4000}).Draw(rt, "pause"))
 		}
 		if rapid.IntRange(0, 3).Draw(rt, "has_out") == 0 {
 			c.Out = rapid.IntRange(1, 3).Draw(rt, "out")
 		}
-		if c.N > 0 && rapid.IntRange(0, 6).Draw(rt, "closes") == 0 {
+		if !stair && c.N > 0 && rapid.IntRange(0, 6).Draw(rt, "closes") == 0 {
 			c.CloseAfter = rapid.IntRange(1, c.N).Draw(rt, "close_after")
 			c.CloseRetryMs = rapid.SampledFrom([]int{0, 10, 2500}).Draw(rt, "close_retry")
 		}
-		c.Plan = genE2EPlan(rt, c.N+2)
+		if stair {
+			for wd := 0; wd < windows; wd++ {
+				c.Plan.Cuts = append(c.Plan.Cuts, &E2ECut{
+					Events: 1,
+					Bytes:  rapid.SampledFrom([]int{0, 0, 7, 60}).Draw(rt, "stair_bytes"),
+					Kind:   rapid.SampledFrom([]string{"eof", "err"}).Draw(rt, "stair_kind"),
+					Eager:  rapid.IntRange(0, 3).Draw(rt, "stair_eager") == 0,
+				})
+				for f := 0; f < budget-1; f++ {
+					c.Plan.Attempts = append(c.Plan.Attempts, rapid.SampledFrom([]string{"503", "503", "neterr"}).Draw(rt, "stair_attempt"))
+				}
+				c.Plan.Attempts = append(c.Plan.Attempts, "ok")
+			}
+		} else {
+			c.Plan = genE2EPlan(rt, c.N+2)
+		}
 		s.Calls = append(s.Calls, c)
 	}
 	s.Standalone = genE2EPlan(rt, 3)
@@ -354,6 +380,15 @@ func (w *e2eWorld) ServeHTTP(rw http.ResponseWriter, r *http.Request) {
 	defer cancel()
 	cw := &cutWriter{w: w, inner: rw, cancel: cancel, method: r.Method, lei: r.Header.Get("Last-Event-ID")}
 	switch r.Method {
+	case "DELETE":
+		// The client sends its DELETE while holding the lock of its jsonrpc2 connection, and the server
+		// answers only after the session's running handlers have returned. A goroutine that waits for
+		// that lock meanwhile is not durably blocked, so virtual time (the handlers' pauses) could not
+		// advance (DESIGN 2.6, watchdog). The "network" therefore answers 204 at once and hands the
+		// request to the real handler in the background; the client ignores the answer anyway.
+		go w.inner.ServeHTTP(discardWriter{http.Header{}}, r.Clone(context.WithoutCancel(r.Context())))
+		rw.WriteHeader(http.StatusNoContent)
+		return
 	case "POST":
 		raw, _ := io.ReadAll(r.Body)
 		r.Body = io.NopCloser(bytes.NewReader(raw))
@@ -412,6 +447,12 @@ func (w *e2eWorld) ServeHTTP(rw http.ResponseWriter, r *http.Request) {
 		panic(http.ErrAbortHandler) // the client's read of this body ends with an error after the bytes let through
 	}
 }
+
+type discardWriter struct{ h http.Header }
+
+func (d discardWriter) Header() http.Header         { return d.h }
+func (d discardWriter) Write(p []byte) (int, error) { return len(p), nil }
+func (d discardWriter) WriteHeader(int)             {}
 
 // ---- the case ------------------------------------------------------------------------------------------
 
@@ -528,7 +569,22 @@ func runE2EInBubble(s E2EScript, closedBoth *bool) (res vt.Result) {
 	select {
 	case e := <-cerr:
 		if e != nil {
-			res.Failf("harness: connect: %v", e)
+			// The standalone stream may be cut beyond the retry budget while Connect is still finishing:
+			// the session then breaks at once, which is a clean outcome. Anything else is a harness problem.
+			w.mu.Lock()
+			sa := analyseE2E(w.standalone, e2eBudget(s), nil)
+			w.mu.Unlock()
+			if sa.inBudget {
+				res.Failf("harness: connect: %v", e)
+			}
+			res.Class("connect_failed_outside_budget")
+			res.Desc = "connect failed"
+			for x := range server.Sessions() {
+				go x.Close()
+			}
+			synctest.Wait()
+			time.Sleep(5 * time.Minute)
+			synctest.Wait()
 			return
 		}
 	default:
@@ -623,21 +679,6 @@ func runE2EInBubble(s E2EScript, closedBoth *bool) (res vt.Result) {
 		if runaway {
 			break
 		}
-		// A call that failed on the client leaves its handler running on the server. If the client
-		// connection broke, its jsonrpc2 layer is closing the transport (a DELETE that waits for those
-		// handlers) while holding the lock a new call needs; a goroutine waiting for a plain mutex is not
-		// durably blocked, so virtual time could not advance (DESIGN 2.6, watchdog). New calls are
-		// therefore issued only once no handler is running.
-		for i := 0; i < 120; i++ {
-			synctest.Wait()
-			w.mu.Lock()
-			idle := w.active == 0
-			w.mu.Unlock()
-			if idle {
-				break
-			}
-			time.Sleep(time.Second)
-		}
 	}
 	// quiescence: let the standalone stream reconnect and deliver what it still has
 	synctest.Wait()
@@ -655,6 +696,16 @@ func runE2EInBubble(s E2EScript, closedBoth *bool) (res vt.Result) {
 	w.mu.Unlock()
 
 	teardown()
+	// every class counts once per case
+	seen := map[string]bool{}
+	uniq := res.Classes[:0]
+	for _, c := range res.Classes {
+		if !seen[c] {
+			seen[c] = true
+			uniq = append(uniq, c)
+		}
+	}
+	res.Classes = uniq
 	return res
 }
 
@@ -739,13 +790,19 @@ func analyseE2E(st *e2eStream, budget int, respMatch func(data string) bool) e2e
 	return a
 }
 
-func judgeE2E(res *vt.Result, s E2EScript, w *e2eWorld, results []e2eCallRes, tr *memhttp.Transport, lvlFailed bool) {
-	budget := s.MaxRetries
-	if budget == 0 {
-		budget = 5
-	} else if budget < 0 {
-		budget = 0
+// e2eBudget is the documented meaning of StreamableClientTransport.MaxRetries.
+func e2eBudget(s E2EScript) int {
+	switch {
+	case s.MaxRetries == 0:
+		return 5
+	case s.MaxRetries < 0:
+		return 0
 	}
+	return s.MaxRetries
+}
+
+func judgeE2E(res *vt.Result, s E2EScript, w *e2eWorld, results []e2eCallRes, tr *memhttp.Transport, lvlFailed bool) {
+	budget := e2eBudget(s)
 	// (5) nothing the server did not emit, nothing twice
 	count := map[string]int{}
 	for _, p := range w.seen {
